@@ -49,6 +49,9 @@ func c05Variants() []protoVariant {
 		{"MaxCasURILength", func(p *protocol.Protocol, alt int) { p.MaxCasURILength = []uint{57, 305}[alt] }},
 		{"MaxMemoryDecompressionFactor", func(p *protocol.Protocol, alt int) { p.MaxMemoryDecompressionFactor = []uint{2, 9}[alt] }},
 		{"MaxChunkFileSize", func(p *protocol.Protocol, alt int) { p.MaxChunkFileSize = []uint{3001, 70001}[alt] }},
+		// the version the operations are batched under starts just before the anchoring time / shortly after time zero
+		// (an anchorFrom below the genesis time of the version is legal: the window is signed by the client)
+		{"GenesisTime", func(p *protocol.Protocol, alt int) { p.GenesisTime = []uint64{995, 3}[alt] }},
 	}
 	for _, d := range deltas {
 		for _, o := range others {
@@ -68,7 +71,7 @@ func c05Variants() []protoVariant {
 
 func c05(r *hx.Run) {
 	fx.Quiet()
-	r.Rule = "bounded-exhaustive enumeration of (anchorFrom, anchorUntil) around every boundary of anchoring time T=1000 x operation type x protocol configurations varying the time delta independently of every other parameter; each case is executed on the real processor/applier (effect) and the real parser with a spy time validator (intake) and compared with the independent window predicate. Non-trivial: the window is declared (from or until non-zero)."
+	r.Rule = "bounded-exhaustive enumeration of (anchorFrom, anchorUntil) around every boundary of anchoring time T=1000 x operation type x protocol configurations varying the time delta independently of every other parameter (including the genesis time of the version); each case is executed on the real processor/applier (effect) and the real parser with a spy time validator (intake) and compared with the independent window predicate. Non-trivial: the window is declared (from or until non-zero)."
 	const T = 1000
 	kt, code := fx.Ed25519, fx.SHA256
 	keys := map[string]*fx.Key{}
@@ -150,7 +153,11 @@ func c05(r *hx.Run) {
 		default:
 			po.Type = "deactivate"
 		}
-		placed := []fx.Placed{{Op: createOp, Time: 500, Num: 0, Published: true}, {Op: po, Time: T, Num: 1, Published: true}}
+		genesis, createTime := j.v.p.GenesisTime, uint64(500)
+		if genesis > createTime {
+			createTime = genesis
+		}
+		placed := []fx.Placed{{Op: createOp, Time: createTime, Num: 0, Published: true, Version: genesis}, {Op: po, Time: T, Num: 1, Published: true, Version: genesis}}
 		rm, err := ResolveImpl(client, suffix, placed)
 		impl := ProjectImpl(rm, err)
 		st, merr := ResolveModel(placed, nil, delta)
@@ -172,11 +179,15 @@ func c05(r *hx.Run) {
 		}
 		// the window is judged under the protocol version the operation was batched under (0), not under a later version that
 		// is in force at its anchoring time and has another delta
-		rm2, err2 := ResolveImpl(hostileSecondVersion(ver, uint64(T)-100), suffix, placed)
+		hostileGenesis := uint64(T) - 100
+		if genesis >= hostileGenesis {
+			hostileGenesis = genesis + 1
+		}
+		rm2, err2 := ResolveImpl(hostileSecondVersion(ver, hostileGenesis), suffix, placed)
 		r.Eval()
 		if impl2 := ProjectImpl(rm2, err2); impl2 != impl {
 			r.Violation(fmt.Sprintf("window-under-version-at-anchoring-time:%s", j.typ), caseID,
-				fmt.Sprintf("%s (protocol version 0) anchored at T=%d with anchorFrom=%d anchorUntil=%d resolves differently once a later protocol version with another delta is in force at T\n  one version : %s\n  two versions: %s",
+				fmt.Sprintf("%s (batched under the earlier protocol version) anchored at T=%d with anchorFrom=%d anchorUntil=%d resolves differently once a later protocol version with another delta is in force at T\n  one version : %s\n  two versions: %s",
 					j.typ, T, j.w.from, j.w.until, impl.Core(), impl2.Core()), nil)
 		}
 		// intake: spy must see the effective window
